@@ -890,6 +890,10 @@ func (ts *TermStore) FPBits(f *Term) *Term {
 	if f.Op == "fpfrombits" {
 		return f.Args[0]
 	}
+	if f.Op == "fp.neg" {
+		// Go (and the hardware) negate by flipping the sign bit, NaN included
+		return ts.BVBin("bvxor", ts.FPBits(f.Args[0]), ts.BVConst(w, uint64(1)<<uint(w-1)))
+	}
 	return ts.mk("fpbits", BV(w), f)
 }
 
